@@ -110,7 +110,7 @@ def gen_algebra(rng, d, tier):
     if rng.random() < 0.1:
         a['symbolcls'] = 'sympy'
     if rng.random() < 0.5:
-        a['wrapper'] = 'stub' if rng.random() < 0.75 else 'ident'
+        a['wrapper'] = rng.choice(['stub', 'stub', 'ident', 'opaque'])
     if rng.random() < 0.1 and not a.get('name'):
         a['start_index'] = rng.choice([0, 1])
     return a
